@@ -312,8 +312,19 @@ func seqProfile0(prop, tier string) *SeqProfile {
 					r.infra("handles generator: %v", err)
 					return
 				}
+				if tier == "thorough" { // every history of exactly 4 steps of 3 handles (the history is part of the state: no VIEW)
+					all, n2, err := handleHistsFromSpec("handlesgen_all_t.cfg", r.Scratch, 30*time.Minute)
+					if err != nil {
+						r.infra("handles generator (all histories): %v", err)
+						return
+					}
+					for _, h := range all {
+						h.ID += 2000000
+					}
+					hs, n = append(hs, all...), n+n2
+				}
 				r.GenStates, r.NGen = n, len(hs)
-				for i := 0; i < tierN(tier, 300, 60000); i++ {
+				for i := 0; i < tierN(tier, 300, 200000); i++ {
 					hs = append(hs, genHandleHist(1000000+i, r.Seed, 14))
 				}
 				r.execHandleHists(hs)
